@@ -66,6 +66,17 @@ CHECKS = {
              "the model with the code on counters/trees that the property does not state is reported as MODEL-DRIFT, not as a violation.",
         technique="TLA+ interpreter of the memoizing PEG engine with the grammar as data (TLC, all token sequences of 7 families) + exact spec->impl replay (tree and counters) + impl->spec oracle validation",
     ),
+    "C11": dict(
+        design_ref="DESIGN.md 3.4, 4 (C11)",
+        text="Tiling.tla is a TLA+ monitor: every observation of a real run (tokens and lexical errors of the logos lexer, the syntax "
+             "tree with node spans, spans of syntax/compile/evaluation diagnostics and of definitions) is installed as a TLC state and "
+             "judged against the declarative definitions IsTiling, OnBoundaries, TokenTexts, Lossless, Hull and SpansInText. Texts: "
+             "repository corpus, character- and token-level mutants, arbitrary Unicode strings, rendered token sequences. The "
+             "design-level Lossless/Contiguous invariants of the tree-building engine are model-checked by C12 over every token "
+             "sequence of its families. The lexer DFA itself is not modelled (DESIGN.md 1.4).",
+        note="Trusted: TLC, the extraction of observations by the harness (oalv parse/compile). The generated lexer is observed, not modelled, so this is trace validation against a monitor specification rather than exhaustive model checking of a lexer design.",
+        technique="trace validation: observations of real lexer/parser/compiler runs judged by a TLA+ monitor specification (TLC) + design-level tree invariants model-checked in Peg.tla",
+    ),
 }
 
 PENDING_REASON = "check not built yet (work in progress; see DESIGN.md section 8 for the build order)"
